@@ -75,15 +75,21 @@ class Type(Scope):
     def require_inherit(self):
         return True
 
-    def get_overridden(self, field_name):
+    def get_overridden(self, field_name, visited=None):
         ret_list = []
         field_name = field_name.lower()
+        # Types that extend each other would otherwise be walked for ever
+        if visited is None:
+            visited = []
+        if any(self is obj for obj in visited):
+            return ret_list
+        visited.append(self)
         for child in self.children:
             if field_name == child.name.lower():
                 ret_list.append(child)
                 break
         if self.inherit_var is not None:
-            ret_list += self.inherit_var.get_overridden(field_name)
+            ret_list += self.inherit_var.get_overridden(field_name, visited)
         return ret_list
 
     def check_valid_parent(self):
